@@ -191,7 +191,7 @@ func stubIndexByte(it *Interp, fr *frame, cc *ssa.CallCommon, a []Value) Value {
 		}
 		res = st.Ite(hit, it.c64(int64(k)), res)
 	}
-	return res
+	return it.tryConst(res)
 }
 
 func stubJoin(it *Interp, fr *frame, cc *ssa.CallCommon, a []Value) Value {
@@ -248,7 +248,7 @@ func stubStringsIndex(it *Interp, fr *frame, cc *ssa.CallCommon, a []Value) Valu
 	for i := x.max; i >= 0; i-- {
 		res = st.Ite(it.matchAt(x, p, i), it.c64(int64(i)), res)
 	}
-	return res
+	return it.tryConst(res)
 }
 
 // ---------------------------------------------------------------------------
